@@ -46,6 +46,14 @@ CLAIMED = {
   text="_callback_listeners: every listener called exactly once with the event, also after others raised, nothing escapes (0..3 listeners, each raising or not); connection_made(secure): every listener hears the empty event, then ALL recorded subscriptions are requested again, nothing on the plain connection; subscribe: the intent is recorded before the first suspension point and a cut-off subscription request switches to the documented polling fallback; _update_subscriptions: for 1..4 characteristics with ARBITRARY ids in any order (and representative interleaved concrete sets) the PUT payloads concatenate to exactly one aid/iid/ev entry per characteristic, one accessory id per PUT; event_received hands a JSON body to the pairing exactly once and ignores empty / non-UTF-8 / non-JSON bodies without raising (defect repaired: non-UTF-8 body).",
   note="Listener and subscription SETS are small representative sets (code parametric in the elements); listeners must not mutate the listener set during dispatch (precondition). Exactly-once and order per EVENT message rest on the C08 dispatch contract. A JSON event body that is not an object is outside the contract.",
   ref="4/C12"),
+ "C13": dict(
+  text="to_status_code is proved to normalise every integer (negative, positive-signed, unknown) to the defined HAP status or the unknown sentinel without raising; format_characteristic_list to return, for every requested characteristic and every reply list (statuses arbitrary integers, entries missing, duplicated, non-dict, id-less), the accessory's status for that characteristic, the request-wide status for unmentioned ones, and to skip malformed entries; IpPairing.put_characteristics to build one aid/iid/value entry per request, to report exactly the accessory's non-zero statuses and to notify listeners for exactly the accepted readable characteristics (defect repaired: comparison with the description string); IpPairing.get_characteristics to return value-or-status for every requested id; the CoAP write result mapping to attach the i-th status to the i-th characteristic and CoAPPairing.put_characteristics / BlePairing.put_characteristics to notify exactly the accepted readable ones and never present a rejected write as written.",
+  note="Request sets are representative concrete sets of 1..4 characteristics over 1..2 accessory ids with symbolic statuses and permissions; the JSON/HTTP layer, the BLE request function and the CoAP connection enter by assumed contracts returning arbitrary replies. BLE reads and the CoAP read mapping are covered by the labelled bounded native harness (harness/outcomes.py) only.",
+  ref="4/C13"),
+ "C14": dict(
+  text="check_convert_value is proved against exact rational arithmetic for every integer format (uint8..uint64, int): for every integer input of magnitude up to 2^64 and every combination of minValue/maxValue/minStep present or absent (symbolic integers, step >= 1, min <= max) the result is a Python int equal to the grid point min + step*k nearest to the clamped input (ties upward) - exactly, whatever the magnitude (defect repaired: the six-digit decimal context was applied to integer formats); for ANY string input and any numeric format the call returns a number or raises FormatError and nothing else (defect repaired: decimal.InvalidOperation escaping); bool yields the int 0/1 exactly for the accepted truth words and FormatError otherwise.",
+  note="decimal.Decimal is modelled as exact rationals plus an uninterpreted context-rounding symbol with two assumed facts (DESIGN 3.5); str->number parsing (int()/float()/Decimal()) enters by assumed contracts. The float format (six significant digits, fractional steps) and 'in range whenever the bounds are on the grid' for floats are decided ONLY by the labelled bounded native stand-in (harness/values.py: fractions.Fraction oracle over the property's format/step/magnitude table) - bounded, not counted as proved.",
+  ref="4/C14"),
  "C15": dict(
   text="TLV.encode_list is proved equal to the canonical TLV8 spec function for every item list (loop invariants, all lengths) and to raise ValueError only for an invalid type/non-empty separator; TLV.decode_bytearray/decode_bytes are proved total (only TlvParseException escapes, exactly on malformed input), equal to the recursive decoding spec incl. merge and 'expected' filter, and to leave the argument unchanged.",
   note="Trusted: pyvc's encoding of Python semantics (DESIGN 2.3), cvc5/z3, models of bytearray/list/struct builtins (DESIGN 3.1). The round-trip lemma dec(enc(L)) = L over the two spec functions and BLE fragment reassembly are not yet discharged.",
